@@ -59,6 +59,8 @@ func main() {
 		runC08(*out, *seed, *tier)
 	case "C18":
 		runC18(*out, *seed, *tier)
+	case "C12":
+		runC12(*out, *seed, *tier)
 	case "C10":
 		runC10(*out, *seed, *tier)
 	case "C04":
